@@ -20,3 +20,24 @@ try:
         pass
 except ImportError:
     pass
+
+
+def structural():
+    """the raw-argument classes and the tokenizer keep no module- or class-level object that their code mutates: the tokens of
+    one command line cannot depend on (or share a list with) the command lines tokenized before"""
+    from pyvc import frontend, structural as st
+    P = frontend.Program()
+    bad = []
+    for mod in ("clikit.args.string_args", "clikit.args.argv_args", "clikit.args.token_parser", "clikit.api.args.raw_args"):
+        try:
+            mi = P.module(mod)
+        except Exception as e:  # noqa
+            bad.append("%s: cannot be read (%r)" % (mod, e))
+            continue
+        bad += ["%s: %s" % (mod, f) for f in st.shared_mutable_state(mi)]
+    return [{
+        "name": "C08.raw_args.frame.no_shared_state", "kind": "frame",
+        "text": "string_args, argv_args, token_parser and raw_args hold no module- or class-level object that their code mutates "
+                "or re-binds",
+        "status": "proved" if not bad else "failed", "note": "; ".join(bad[:6]),
+    }]
